@@ -1011,7 +1011,9 @@ func main() {
 				c.Hist("parse-outcome", "crash-"+res.Crash)
 			default:
 				c.Hist("parse-outcome", res.Res.Out.Kind)
-				if k := res.Res.Out.Kind; k != "ok" && k != "positioned" {
+				if k := res.Res.Out.Kind; k == "crash" {
+					c.Fail("panic-escapes-public-entry-point", "a panic left Parser.ParseData: "+res.Res.Out.Msg, in)
+				} else if k != "ok" && k != "positioned" {
 					c.Fail(errClass(res.Res.Out.Msg), "ParseData returned an error without a source position: "+res.Res.Out.Msg, in)
 				}
 			}
